@@ -112,7 +112,7 @@ func runJob(prop string, sc *scenario, budget time.Duration, detCheck int) *jobR
 		if e.St.HarnessErr != "" {
 			total.HarnessErr = e.St.HarnessErr
 		}
-		if e.St.FaultsSeen == 0 || e.St.HarnessErr != "" || k > 400 {
+		if k > e.St.OpsSeen || e.St.HarnessErr != "" || k > 600 {
 			// k is beyond the last filesystem call of the program: every position has been covered
 			res.FaultPositions = k - 1
 			e.St = total
